@@ -19,12 +19,13 @@ open PqModel.Bits
 
 inductive Err where
   | truncHeader | truncBitPacked | truncRleValue | truncPrefix | fuel | width | invalidBitWidth
+  | runTooLong
   deriving DecidableEq
 
 def Err.name : Err → String
   | .truncHeader => "trunc-header" | .truncBitPacked => "trunc-bitpacked"
   | .truncRleValue => "trunc-rle-value" | .truncPrefix => "trunc-prefix" | .fuel => "fuel"
-  | .width => "width" | .invalidBitWidth => "invalid-bit-width"
+  | .width => "width" | .invalidBitWidth => "invalid-bit-width" | .runTooLong => "run-too-long"
 
 /-- little-endian number of a byte string -/
 def leNat : List Nat → Nat
@@ -243,6 +244,61 @@ def maxLen (xs : List Nat) : Nat := xs.foldl (fun m x => max m (bitLen x)) 0
 /-- MIRROR dictionary.go:23-28 `DictionaryEncoding.EncodeInt32` -/
 def encodeDict (src : List Nat) : Except Err (List Nat) :=
   (encodeInt32 (maxLen src) src).map (maxLen src :: ·)
+
+/-! ## MIRROR of the (repaired) boolean decoder `decodeBits` -/
+
+/-- MIRROR `encoding/binary.Uvarint`: at most 10 bytes, the 10th at most 1; `none` = the Go
+function returned `n <= 0` (input exhausted or overflow). The accumulated `x | b<<s` is written
+arithmetically (the shifted groups do not overlap). `i` is the byte index. -/
+def goUvarint : Nat → List Nat → Option (Nat × List Nat)
+  | _, [] => none
+  | i, b :: bs =>
+    if i = 10 then none
+    else if b < 0x80 then (if i = 9 ∧ b > 1 then none else some (b, bs))
+    else match goUvarint (i + 1) bs with
+      | some (v, r) => some (b - 128 + 128 * v, r)
+      | none => none
+
+/-- MIRROR rle.go `decodeBits` after the repair (RLE runs expanded per value, bit offset carried
+across runs). ABSTRACTION: `dst` is modelled as the list of the `nbits` bits it holds;
+`appendBitsAt` (shifting a bit-packed run in at a non-aligned offset) and `appendBitRun` are list
+appends. The byte-level shifting itself is tied by L2 (`rle.godecbits`), not proved. A zero-length
+run is skipped without reading a value, a missing RLE value byte reads as 0, as in the Go code. -/
+def goDecodeBitsLoop : Nat → List Bool → List Nat → Except Err (List Bool)
+  | 0, bits, src => if src.isEmpty then .ok bits else .error .fuel
+  | f + 1, bits, src =>
+    if src.isEmpty then .ok bits else
+    match goUvarint 0 src with
+    | none => .error .truncHeader
+    | some (u, rest) =>
+      if u / 2 = 0 then goDecodeBitsLoop f bits rest
+      else if u / 2 > 2 ^ 31 - 1 then .error .runTooLong
+      else if u % 2 = 1 then
+        if rest.length < u / 2 then .error .truncBitPacked
+        else goDecodeBitsLoop f (bits ++ bytesToBits (rest.take (u / 2))) (rest.drop (u / 2))
+      else
+        goDecodeBitsLoop f (bits ++ List.replicate (u / 2) (rest.headD 0 % 2 == 1)) (rest.drop 1)
+
+/-- the values `decodeBits` produces (one per bit of its output, padding excluded) -/
+def goDecodeBitValues (src : List Nat) : Except Err (List Nat) :=
+  (goDecodeBitsLoop (src.length + 1) [] src).map (·.map b2n)
+
+/-- the bytes `decodeBits` returns: the bits packed 8 per byte, LSB first, zero padded -/
+def goDecodeBits (src : List Nat) : Except Err (List Nat) :=
+  (goDecodeBitsLoop (src.length + 1) [] src).map (fun bits => bitsToBytes bits.length bits)
+
+/-- MIRROR rle.go:68-82 `DecodeBoolean` -/
+def goDecodeBoolean (src : List Nat) : Except Err (List Nat) :=
+  if src.length = 4 then .ok [] else
+  if src.length < 4 then .error .truncPrefix else
+  if (src.drop 4).length < leNat (src.take 4) then .error .truncPrefix else
+  goDecodeBits ((src.drop 4).take (leNat (src.take 4)))
+
+/-- what the Go boolean decoder additionally requires of a run: RLE runs are not empty (it does not
+consume the value of an empty run) and no run announces more than `math.MaxInt32` values/bytes -/
+def Run.GoOK : Run → Prop
+  | .rle c _ => 1 ≤ c ∧ c ≤ 2 ^ 31 - 1
+  | .bp g _ => g ≤ 2 ^ 31 - 1
 
 /-! ## Legacy BIT_PACKED levels (encoding/bitpacked) -/
 
